@@ -56,14 +56,17 @@ def run(ctx):
         par = parents(fn)
         sockp = A.param_names(fn)[1] if len(A.param_names(fn)) > 1 else None
         alias: Dict[str, str] = {}
+        # a local bound once to an attribute of a parameter (`key = socket.key`) stands for that attribute
+        params_ = set(A.param_names(fn))
+        naming = {k_: v_ for k_, v_ in A.single_defs(fn).items() if isinstance(v_, ast.Attribute) and isinstance(v_.value, ast.Name) and v_.value.id in params_}
         for n in A.body_nodes(fn):
             if isinstance(n, ast.Assign) and isinstance(n.targets[0], ast.Name) and isinstance(n.value, ast.Subscript) and A.is_self_attr(n.value.value, "_messages"):
-                alias[n.targets[0].id] = A.norm(n.value.slice)
+                alias[n.targets[0].id] = A.norm(A.expand(n.value.slice, naming))
         for n in A.body_nodes(fn):
             q = None
             key = None
             if isinstance(n, ast.Subscript) and A.is_self_attr(n.value, "_messages"):
-                q, key = n, A.norm(n.slice)
+                q, key = n, A.norm(A.expand(n.slice, naming))
             elif isinstance(n, ast.Name) and isinstance(n.ctx, ast.Load) and n.id in alias:
                 q, key = n, alias[n.id]
             if q is None:
@@ -137,11 +140,14 @@ def run(ctx):
     # roles in the hub
     def keys_used(fn, what):
         out = set()
+        # a local bound once to an attribute of a parameter (`key = socket.key`) stands for that attribute
+        params_ = set(A.param_names(fn))
+        naming = {k_: v_ for k_, v_ in A.single_defs(fn).items() if isinstance(v_, ast.Attribute) and isinstance(v_.value, ast.Name) and v_.value.id in params_}
         for n in A.body_nodes(fn):
             if isinstance(n, ast.Subscript) and A.is_self_attr(n.value, what):
-                out.add(A.norm(n.slice))
+                out.add(A.norm(A.expand(n.slice, naming)))
             if isinstance(n, ast.Call) and isinstance(n.func, ast.Attribute) and n.func.attr in ("get", "pop") and A.is_self_attr(n.func.value, what) and n.args:
-                out.add(A.norm(n.args[0]))
+                out.add(A.norm(A.expand(n.args[0], naming)))
         return out
     send, recv, addcb, conn = (hub.methods.get(x) for x in ("send", "recv", "_add_callbacks", "connect"))
     if not all((send, recv, addcb, conn)):
